@@ -3,7 +3,7 @@
 Applies exact-text edits to /repo's working tree (each <old> must occur exactly once), checks that it still
 builds, runs all 19 quick checks (no evidence is kept: the evidence directory is restored), prints what fires, and reverts /repo."""
 import subprocess, sys, os, re, shutil, tempfile
-os.chdir('/verif')
+os.chdir("/verif"); subprocess.call(["./check.sh","--build"], stdout=subprocess.DEVNULL)
 env = dict(os.environ, GOFLAGS='-mod=mod', GOPROXY='off', GOSUMDB='off', GOTOOLCHAIN='local'); env.pop('GOWORK', None)
 if subprocess.call(['git', '-C', '/repo', 'diff', '--quiet']) != 0:
     print('/repo dirty'); sys.exit(2)
